@@ -263,7 +263,34 @@ func runC07Program(p c07Program) (string, error) {
 		select {
 		case <-done:
 		case <-time.After(10 * time.Second):
-			return "", fmt.Errorf("deadlock: the program did not finish within 10 s (run %d)", run)
+			// a program of at most 16 operations takes microseconds; but a time bound alone is
+			// no proof on a busy machine, so wait on, and report with the stacks of the stuck goroutines
+			select {
+			case <-done:
+			case <-time.After(35 * time.Second):
+				buf := make([]byte, 1<<18)
+				buf = buf[:runtime.Stack(buf, true)]
+				stuck, blocked, busy := "", 0, 0
+				for _, blk := range strings.Split(string(buf), "\n\n") {
+					if !strings.Contains(blk, "runC07Program.func") || strings.Contains(blk, "runtime.Stack") {
+						continue
+					}
+					head := firstLines(blk, 1)
+					if strings.Contains(head, "[running") || strings.Contains(head, "[runnable") {
+						busy++
+						continue
+					}
+					blocked++
+					if strings.Contains(blk, "badwolf/storage") {
+						stuck += " || " + strings.ReplaceAll(firstLines(blk, 7), "\n", " <- ")
+					}
+				}
+				if busy > 0 || blocked == 0 {
+					// still computing after 45 s: a starved process, not a deadlock
+					return "", fmt.Errorf("inconclusive-slow: the program did not finish within 45 s but %d of its goroutines are runnable", busy)
+				}
+				return "", fmt.Errorf("deadlock: the program did not finish within 45 s (run %d): all %d remaining goroutines of the program are blocked; inside the store:%s", run, blocked, stuck)
+			}
 		}
 		for _, e := range events {
 			if e.Thread == -1 {
@@ -421,9 +448,29 @@ func init() {
 	})
 }
 
+func firstLines(s string, n int) string {
+	ls := strings.Split(s, "\n")
+	if len(ls) > n {
+		ls = ls[:n]
+	}
+	return strings.Join(ls, "\n")
+}
+
+// checkC07Program runs the program. A deadlock is reported when, 45 s after the start of a
+// program that takes microseconds, every remaining goroutine of the program is blocked (stack
+// states); a program that is merely slow on a busy machine is counted and skipped.
 func checkC07Program(ctx *pbt.Ctx, p c07Program) error {
+	err := checkC07ProgramOnce(ctx, p)
+	if err != nil && strings.Contains(err.Error(), "inconclusive-slow") {
+		ctx.Label("slow-not-deadlocked(skipped)")
+		return nil
+	}
+	return err
+}
+
+func checkC07ProgramOnce(ctx *pbt.Ctx, p c07Program) error {
 	var resp map[string]string
-	o, err := isolate.CallJSON("c07prog", p, &resp, 60*time.Second)
+	o, err := isolate.CallJSON("c07prog", p, &resp, 100*time.Second)
 	if err != nil {
 		return fmt.Errorf("infrastructure: %v", err)
 	}
@@ -431,7 +478,7 @@ func checkC07Program(ctx *pbt.Ctx, p c07Program) error {
 		return fmt.Errorf("the process died running the concurrent program: %s", lastLines(o.Stderr, 14))
 	}
 	if o.Hung {
-		return fmt.Errorf("the concurrent program did not finish within 60 s (deadlock): %s", lastLines(o.Stderr, 14))
+		return fmt.Errorf("the concurrent program did not finish within 100 s (deadlock): %s", lastLines(o.Stderr, 14))
 	}
 	if resp["err"] != "" {
 		return fmt.Errorf("infrastructure: %s", resp["err"])
@@ -743,7 +790,83 @@ func checkC07Channels(ctx *pbt.Ctx, c c09Case) error {
 			return fmt.Errorf("%s returned err=%v; an AddTriples+Exist on the same graph issued afterwards has not returned within %v (deadlock: a lock was left held)", desc, r.Err, c07WriteWait)
 		}
 	}
+	// a lookup entered with a context that is already cancelled still closes its channel
+	// exactly once and leaves no lock behind
+	for qi, q := range c.Qs {
+		if qi >= 3 {
+			break
+		}
+		cctx, cancel := context.WithCancel(bg)
+		cancel()
+		lo := q.Opt.build()
+		r := callLookupWith(cctx, g, q.Call, lo)
+		desc := fmt.Sprintf("query %d %s with %s and an already cancelled context", qi, describeCall(q.Call), describeOpt(q.Opt))
+		if r.Panicked != nil {
+			return fmt.Errorf("%s panicked: %v", desc, r.Panicked)
+		}
+		if !r.Closed {
+			return fmt.Errorf("%s returned (err=%v) without closing its channel", desc, r.Err)
+		}
+		ctx.Label("cancelled-context")
+	}
+	// graphs can be created, fetched, listed and dropped while a lookup is streaming: the
+	// consumer takes one element, works on the store, and only then drains the rest
+	if len(all) >= 2 {
+		if err := c07StoreOpsWhileStreaming(st, g, all); err != nil {
+			return err
+		}
+		ctx.Label("store-ops-while-streaming")
+	}
 	ctx.Nontrivial()
+	return nil
+}
+
+// c07StoreOpsWhileStreaming: Triples() on graph ?g with an unbuffered channel; after the first
+// element every store-level operation, including dropping ?g itself and creating it again, must
+// return; then the rest is drained and the lookup must return with the channel closed.
+func c07StoreOpsWhileStreaming(st storage.Store, g storage.Graph, all []*triple.Triple) error {
+	bg := context.Background()
+	ch := make(chan *triple.Triple)
+	ret := make(chan error, 1)
+	go func() { ret <- g.Triples(bg, storage.DefaultLookup, ch) }()
+	select {
+	case _, ok := <-ch:
+		if !ok {
+			return nil // nothing stored under this handle any more
+		}
+	case <-time.After(c07WriteWait):
+		return fmt.Errorf("Triples() delivered nothing within %v on a graph holding %d triples", c07WriteWait, len(all))
+	}
+	ops := []struct {
+		name string
+		f    func() error
+	}{
+		{"Graph(?g)", func() error { _, err := st.Graph(bg, "?g"); return err }},
+		{"NewGraph(?other)", func() error { _, err := st.NewGraph(bg, "?other"); return err }},
+		{"GraphNames", func() error { _, err := graphNames(st); return err }},
+		{"DeleteGraph(?other)", func() error { return st.DeleteGraph(bg, "?other") }},
+		{"DeleteGraph(?g)", func() error { return st.DeleteGraph(bg, "?g") }},
+		{"NewGraph(?g)", func() error { _, err := st.NewGraph(bg, "?g"); return err }},
+	}
+	for _, op := range ops {
+		done := make(chan error, 1)
+		go func() { done <- op.f() }()
+		select {
+		case err := <-done:
+			if err != nil {
+				return fmt.Errorf("%s while a lookup on ?g is streaming failed: %v", op.name, err)
+			}
+		case <-time.After(c07WriteWait):
+			return fmt.Errorf("deadlock: %s has not returned within %v while a lookup on ?g is streaming (its consumer took one element and drains the rest afterwards)", op.name, c07WriteWait)
+		}
+	}
+	for range ch {
+	}
+	select {
+	case <-ret:
+	case <-time.After(c07WriteWait):
+		return fmt.Errorf("deadlock: Triples() has not returned within %v after its channel was drained", c07WriteWait)
+	}
 	return nil
 }
 
